@@ -120,6 +120,161 @@ def gen_cases(rng, tier):
     return cases
 
 
+# ------------------------------------------------------------------ translator (source -> coq/Gen/C14_Tables.v)
+class TranslateError(RuntimeError):
+    pass
+
+
+def _cexpr(node, flagless=True):
+    """constant int expression: literal, os.O_*, a | b"""
+    import ast
+    if isinstance(node, ast.Constant) and type(node.value) is int and node.value >= 0:
+        return "(CConst %d)" % node.value
+    if (isinstance(node, ast.Attribute) and isinstance(node.value, ast.Name) and node.value.id == "os"
+            and node.attr.startswith("O_") and isinstance(getattr(os, node.attr, None), int)):
+        return "(CConst %d)" % getattr(os, node.attr)
+    if isinstance(node, ast.BinOp) and isinstance(node.op, ast.BitOr):
+        return "(COr %s %s)" % (_cexpr(node.left), _cexpr(node.right))
+    raise TranslateError("constant expression not understood: " + ast.dump(node))
+
+
+def _flags_and(node):
+    """flags & <cexpr>  ->  the cexpr"""
+    import ast
+    if (isinstance(node, ast.BinOp) and isinstance(node.op, ast.BitAnd) and isinstance(node.left, ast.Name)
+            and node.left.id == "flags"):
+        return _cexpr(node.right)
+    raise TranslateError("expected 'flags & <constant>': " + ast.dump(node))
+
+
+def _str_const(node):
+    import ast
+    if isinstance(node, ast.Constant) and isinstance(node.value, str) and node.value.isascii():
+        return G.by(node.value)
+    raise TranslateError("expected an ASCII str literal: " + ast.dump(node))
+
+
+def _replace_call(node):
+    """mode.replace(old, new[, count])  ->  (old, new, cnt)"""
+    import ast
+    if not (isinstance(node, ast.Call) and isinstance(node.func, ast.Attribute) and node.func.attr == "replace"
+            and isinstance(node.func.value, ast.Name) and node.func.value.id == "mode" and not node.keywords
+            and len(node.args) in (2, 3)):
+        raise TranslateError("expected mode.replace(old, new[, count]): " + ast.dump(node))
+    cnt = "None"
+    if len(node.args) == 3:
+        c = node.args[2]
+        if not (isinstance(c, ast.Constant) and type(c.value) is int and 0 <= c.value < 100):
+            raise TranslateError("replace() count not a small literal")
+        cnt = "(Some %d%%nat)" % c.value
+    return _str_const(node.args[0]), _str_const(node.args[1]), cnt
+
+
+def _assign_to(node, name):
+    import ast
+    return (isinstance(node, ast.Assign) and len(node.targets) == 1 and isinstance(node.targets[0], ast.Name)
+            and node.targets[0].id == name)
+
+
+def translate_file_flags_to_mode(fn):
+    """ast.FunctionDef of file_flags_to_mode -> Gallina [prog] literal; raises TranslateError on any unknown shape."""
+    import ast
+    if [a.arg for a in fn.args.args] != ["flags"] or fn.decorator_list or fn.args.vararg or fn.args.kwarg or fn.args.kwonlyargs:
+        raise TranslateError("file_flags_to_mode: unexpected signature")
+    body = list(fn.body)
+    if body and isinstance(body[0], ast.Expr) and isinstance(body[0].value, ast.Constant) and isinstance(body[0].value.value, str):
+        body = body[1:]
+    if not (body and isinstance(body[-1], ast.Return) and isinstance(body[-1].value, ast.Name) and body[-1].value.id == "mode"):
+        raise TranslateError("file_flags_to_mode: does not end in 'return mode'")
+    tables = {}
+    stmts = []
+    for st in body[:-1]:
+        if (isinstance(st, ast.Assign) and len(st.targets) == 1 and isinstance(st.targets[0], ast.Name)
+                and isinstance(st.value, ast.Dict) and st.targets[0].id not in ("mode", "flags")):
+            tables[st.targets[0].id] = "[%s]" % "; ".join("(%s, %s)" % (_cexpr(k), _str_const(v))
+                                                          for k, v in zip(st.value.keys, st.value.values))
+        elif (_assign_to(st, "mode") and isinstance(st.value, ast.Subscript) and isinstance(st.value.value, ast.Name)
+              and st.value.value.id in tables):
+            stmts.append("SLookup %s %s" % (tables[st.value.value.id], _flags_and(st.value.slice)))
+        elif _assign_to(st, "mode"):
+            stmts.append("SReplace None %s %s %s" % _replace_call(st.value))
+        elif isinstance(st, ast.If) and not st.orelse and len(st.body) == 1 and _assign_to(st.body[0], "mode"):
+            stmts.append("SReplace (Some %s) %s %s %s" % ((_flags_and(st.test),) + _replace_call(st.body[0].value)))
+        else:
+            raise TranslateError("file_flags_to_mode: statement not understood: " + ast.dump(st)[:300])
+    return "[%s]" % ";\n   ".join(stmts)
+
+
+def translate_io_counters(tree):
+    """keys of the pio(...) call (in argument order), the split separator and pio's field names"""
+    import ast
+    fn = None
+    for node in ast.walk(tree):
+        if isinstance(node, ast.ClassDef) and node.name == "Process":
+            for sub in ast.walk(node):
+                if isinstance(sub, ast.FunctionDef) and sub.name == "io_counters":
+                    fn = sub
+    if fn is None:
+        raise TranslateError("Process.io_counters not found")
+    keys = seps = None
+    for node in ast.walk(fn):
+        if isinstance(node, ast.Call) and isinstance(node.func, ast.Name) and node.func.id == "pio":
+            if keys is not None or node.keywords:
+                raise TranslateError("io_counters: more than one pio(...) call / keyword arguments")
+            keys = []
+            for a in node.args:
+                if not (isinstance(a, ast.Subscript) and isinstance(a.value, ast.Name) and a.value.id == "fields"
+                        and isinstance(a.slice, ast.Constant) and isinstance(a.slice.value, bytes)):
+                    raise TranslateError("io_counters: pio argument is not fields[b'...']: " + ast.dump(a))
+                keys.append(a.slice.value)
+        if (isinstance(node, ast.Call) and isinstance(node.func, ast.Attribute) and node.func.attr == "split"
+                and isinstance(node.func.value, ast.Name) and node.func.value.id == "line"):
+            if seps is not None or len(node.args) != 1 or node.keywords or not (
+                    isinstance(node.args[0], ast.Constant) and isinstance(node.args[0].value, bytes)):
+                raise TranslateError("io_counters: line.split(...) not of the form line.split(b'..')")
+            seps = node.args[0].value
+    if keys is None or seps is None:
+        raise TranslateError("io_counters: pio(...) call or line.split(...) not found")
+    fields = None
+    for node in tree.body:
+        if (_assign_to(node, "pio") and isinstance(node.value, ast.Call) and isinstance(node.value.func, ast.Name)
+                and node.value.func.id == "namedtuple" and len(node.value.args) == 2):
+            f = node.value.args[1]
+            if isinstance(f, ast.List) and all(isinstance(e, ast.Constant) and isinstance(e.value, str) for e in f.elts):
+                fields = [e.value for e in f.elts]
+            elif isinstance(f, ast.Constant) and isinstance(f.value, str):
+                fields = f.value.replace(",", " ").split()
+    if fields is None:
+        raise TranslateError("pio = namedtuple('pio', [...]) not found")
+    return keys, seps, fields
+
+
+def gen_tables(impl_dir, out_dir):
+    """Translate file_flags_to_mode and the constants of Process.io_counters of the tree under check into
+    coq/Gen/C14_Tables.v.  coq/C14/ProofsGen.v proves the translated program equal to the model on every flag word
+    and the constants equal to the model's, so an edit of these parts of the source breaks a proof (or the build)."""
+    import ast
+    src = open(os.path.join(impl_dir, "psutil", "_pslinux.py")).read()
+    tree = ast.parse(src)
+    fns = [n for n in tree.body if isinstance(n, ast.FunctionDef) and n.name == "file_flags_to_mode"]
+    if len(fns) != 1:
+        raise TranslateError("file_flags_to_mode: %d module-level definitions" % len(fns))
+    prog = translate_file_flags_to_mode(fns[0])
+    keys, sep, fields = translate_io_counters(tree)
+    txt = "\n".join([
+        "(* GENERATED by props/C14.py (gen_tables) from psutil/_pslinux.py of the tree under check -- do not edit. *)",
+        "From PV Require Import C14.PyMini.", "",
+        "Definition gen_mode_prog : prog :=\n  %s." % prog, "",
+        "Definition gen_pio_keys : list bytes :=\n  [%s]." % "; ".join(G.by(k) for k in keys),
+        "Definition gen_io_sep : bytes := %s." % G.by(sep),
+        "Definition gen_pio_fields : list bytes :=\n  [%s]." % "; ".join(G.by(f) for f in fields), ""])
+    path = os.path.join(out_dir, "C14_Tables.v")
+    os.makedirs(out_dir, exist_ok=True)
+    if not os.path.exists(path) or open(path).read() != txt:
+        with open(path, "w") as f:
+            f.write(txt)
+
+
 # ------------------------------------------------------------------ Coq terms
 def _paths(e, base):
     """(raw link target, exists_cut, isreg of the cleaned path) for an entry; base = directory of target files."""
